@@ -100,7 +100,7 @@ class P(MetProp):
                 g2 = None if (op2 == op and rng.random() < 0.6) else glist()
                 e2 = m.mvec(op2, e, None, g2)
                 j2 = add(e2, instant)
-                if op2 in AGGK:
+                if op2 in ("sum", "count", "min", "max"):          # avg / stddev / stdvar: bit-exact against the faithful model only (streaming mean)
                     rels.append("MRelVagg %d %d %s (%s)" % (j, j2, AGGK[op2], mgen.grouping_coq(g2)))
                 if rng.random() < 0.5:
                     op3 = rng.choice(["sum", "max", "count"])
